@@ -107,6 +107,9 @@ def malformed_variants():
         m3["ops"]["rate"]["eqs"][0][2] = ["+", m3["ops"]["rate"]["eqs"][0][2], V(name)]
         out.append((f"M3-reserved-name-{name}", "raises", m3, {}))
     out.append(("M4-node-value-for-missing-operator", "raises", m, dict(node_values={"p1/nope/tau": 3.0})))
+    out.append(("M4b-node-value-wildcard-missing-operator", "raises", m, dict(node_values={"all/nope/tau": 3.0})))
+    out.append(("M4c-node-value-wildcard-missing-variable", "raises", m, dict(node_values={"all/rate/taux": 3.0})))
+    out.append(("M4d-node-value-missing-variable", "raises", m, dict(node_values={"p1/rate/taux": 3.0})))
     m5 = json.loads(json.dumps(m))
     m5["edges"][0]["tgt"] = "p2/rate/r_inn"
     out.append(("M5-edge-target-variable-misspelt", "raises", m5, {}))
